@@ -250,8 +250,11 @@ impl D {
     fn whoami(&self) -> u32 {
         self.0
     }
+    /// An async getter that really yields (so that whoever computes this interface's properties,
+    /// e.g. for InterfacesAdded, can be overtaken).
     #[zbus(property)]
-    fn number(&self) -> u32 {
+    async fn number(&self) -> u32 {
+        crate::kernel::yield_once().await;
         self.0
     }
 }
@@ -420,6 +423,21 @@ pub fn gen_val(rng: &mut crate::rng::Rng, sig: &str) -> Val {
         b'a' => {
             let esig = &sig[1..];
             let n = rng.below(4);
+            if esig.starts_with('{') {
+                // dictionary: unique keys
+                let parts = crate::wire::split_sig(&esig[1..esig.len() - 1]).unwrap();
+                let items = (0..n)
+                    .map(|i| {
+                        let k = match parts[0].as_str() {
+                            "s" => Val::Str(format!("k{i}")),
+                            "u" => Val::U32(i as u32),
+                            _ => gen_val(rng, &parts[0]),
+                        };
+                        Val::DictEntry(Box::new(k), Box::new(gen_val(rng, &parts[1])))
+                    })
+                    .collect();
+                return Val::Array(esig.to_string(), items);
+            }
             Val::Array(esig.to_string(), (0..n).map(|_| gen_val(rng, esig)).collect())
         }
         b'(' => {
@@ -543,4 +561,81 @@ pub trait SimA {
 
     #[zbus(signal)]
     fn tick(&self, n: u32, what: &str) -> zbus::Result<()>;
+}
+
+/// Dictionaries compare as sets of entries: sort them (recursively) before comparing wire values.
+pub fn norm(v: &Val) -> Val {
+    match v {
+        Val::Array(e, items) => {
+            let mut items: Vec<Val> = items.iter().map(norm).collect();
+            if e.starts_with('{') {
+                items.sort_by_key(|i| format!("{i:?}"));
+            }
+            Val::Array(e.clone(), items)
+        }
+        Val::Struct(f) => Val::Struct(f.iter().map(norm).collect()),
+        Val::DictEntry(k, v) => Val::DictEntry(Box::new(norm(k)), Box::new(norm(v))),
+        Val::Variant(i) => Val::Variant(Box::new(norm(i))),
+        other => other.clone(),
+    }
+}
+
+/// Seeded typed values for the generated proxies.
+pub trait Gen: Sized {
+    fn gen(rng: &mut crate::rng::Rng) -> Self;
+}
+macro_rules! gen_int {
+    ($($t:ty),*) => {$(impl Gen for $t {
+        fn gen(rng: &mut crate::rng::Rng) -> Self {
+            match rng.below(4) { 0 => 0 as $t, 1 => <$t>::MAX, 2 => <$t>::MIN, _ => rng.next_u64() as $t }
+        }
+    })*};
+}
+gen_int!(u8, i16, u16, i32, u32, i64, u64);
+impl Gen for bool {
+    fn gen(rng: &mut crate::rng::Rng) -> Self {
+        rng.chance(1, 3)
+    }
+}
+impl Gen for f64 {
+    fn gen(rng: &mut crate::rng::Rng) -> Self {
+        *rng.pick(&[0.0, -1.5, 3.25, 1e300, f64::MIN_POSITIVE])
+    }
+}
+impl Gen for String {
+    fn gen(rng: &mut crate::rng::Rng) -> Self {
+        rng.pick(&["", "a", "hello world", "ünïcödé", "with\nnewline"]).to_string()
+    }
+}
+impl Gen for zbus::zvariant::OwnedObjectPath {
+    fn gen(rng: &mut crate::rng::Rng) -> Self {
+        zbus::zvariant::OwnedObjectPath::try_from(*rng.pick(&["/", "/a", "/a/b_c/d0"])).unwrap()
+    }
+}
+impl Gen for OwnedValue {
+    fn gen(rng: &mut crate::rng::Rng) -> Self {
+        use zbus::zvariant::Value;
+        let v: Value<'static> = match rng.below(4) {
+            0 => Value::U32(rng.next_u64() as u32),
+            1 => Value::from(String::gen(rng)),
+            2 => Value::from(vec![1u8, 2, 3]),
+            _ => Value::from((7i32, "seven")),
+        };
+        OwnedValue::try_from(v).unwrap()
+    }
+}
+impl<T: Gen> Gen for Vec<T> {
+    fn gen(rng: &mut crate::rng::Rng) -> Self {
+        (0..rng.below(4)).map(|_| T::gen(rng)).collect()
+    }
+}
+impl<T: Gen> Gen for HashMap<String, T> {
+    fn gen(rng: &mut crate::rng::Rng) -> Self {
+        (0..rng.below(4)).map(|i| (format!("k{i}"), T::gen(rng))).collect()
+    }
+}
+impl<A: Gen, B: Gen> Gen for (A, B) {
+    fn gen(rng: &mut crate::rng::Rng) -> Self {
+        (A::gen(rng), B::gen(rng))
+    }
 }
